@@ -22,6 +22,7 @@ enum Focus {
     Instr(u64),
     AtInput(usize),
     AfterReply(usize),
+    AfterList(usize),
     Stop(usize, usize, bool), // line, statement index, END instead of STOP
     Sched(usize),
 }
@@ -223,9 +224,24 @@ impl Case for C13Case {
                 return v;
             }
         }
+        let n_lists = base_events.iter().filter(|e| matches!(e, Ev::List(..))).count();
+        let list_points: Vec<usize> = match &self.focus {
+            Focus::All => (0..n_lists).collect(),
+            Focus::AfterList(j) => vec![*j],
+            _ => vec![],
+        };
+        for j in list_points {
+            if let Some(viol) = check(&mut v, &format!("interrupt-after-listed-line {}", j), Plan::AfterList(j), None, post(j as u64 + 5)) {
+                v.violation = Some(viol);
+                return v;
+            }
+        }
         // 3. STOP / END at every top-level statement boundary
         let mut places: Vec<(usize, usize, bool)> = vec![];
+        // a program that lists itself shows the inserted STOP / END: not comparable
+        let lists_itself = self.prog.lines.iter().any(|l| l.stmts.iter().any(|s| matches!(s, Stmt::ListCmd(..))));
         match &self.focus {
+            Focus::All if lists_itself => {}
             Focus::All => {
                 for (i, l) in self.prog.lines.iter().enumerate() {
                     for j in 0..l.stmts.len() {
@@ -335,6 +351,12 @@ impl Case for C13Case {
                     ..self.clone()
                 }));
             }
+            for j in 0..40 {
+                out.push(Box::new(C13Case {
+                    focus: Focus::AfterList(j),
+                    ..self.clone()
+                }));
+            }
             for (i, l) in self.prog.lines.iter().enumerate() {
                 for j in 0..l.stmts.len() {
                     out.push(Box::new(C13Case {
@@ -389,7 +411,33 @@ impl Property for C13 {
         cfg.inkey = rng.pct(15);
         let layout_member = rng.pct(40);
         cfg.layout = layout_member;
-        let prog = gen_program(rng, cfg);
+        let mut prog = gen_program(rng, cfg);
+        if rng.pct(15) && prog.lines.len() >= 2 {
+            // the program lists a part of itself: the LIST statement is served line by line and can be
+            // interrupted between any two lines
+            let n = prog.lines.len();
+            let at = rng.usize(n);
+            let a = rng.usize(n);
+            let b = a + rng.usize(n - a);
+            let num = prog.lines[at].num;
+            let free = num > 0 && (at == 0 || prog.lines[at - 1].num < num - 1);
+            if free {
+                prog.lines.insert(
+                    at,
+                    Line {
+                        num: num - 1,
+                        stmts: vec![Stmt::ListCmd(Some(Target::L(a)), Some(Target::L(b)))],
+                    },
+                );
+                crate::gen::map_targets(&mut prog, &mut |t| {
+                    if let Target::L(i) = t {
+                        if *i >= at {
+                            *i += 1;
+                        }
+                    }
+                });
+            }
+        }
         // replies through the reference model used as a workload helper (never as oracle here)
         let mut r = Ref::new(&prog);
         r.auto_reply = Some(rng.fork());
@@ -434,7 +482,7 @@ impl Property for C13 {
         }
     }
     fn rule(&self) -> &'static str {
-        "one evaluation = one generated program (2-25 lines; FOR/WHILE/GOSUB/ON/IF/INPUT/READ/DEF FN/SWAP/MID$=, optional planted runtime error) for which EVERY interrupt instant k in 0..N (N = instructions of the uninterrupted run, up to 700), every INPUT wait and every after-reply instant is executed with interrupt()+CONT, STOP and END are inserted at every top-level statement boundary, and 7 quantum schedules are run; distinct = distinct fingerprint of all event logs of the case; non-trivial = the uninterrupted run executed more than 5 VM instructions"
+        "one evaluation = one generated program (2-25 lines; FOR/WHILE/GOSUB/ON/IF/INPUT/READ/DEF FN/SWAP/MID$=, optional planted runtime error) for which EVERY interrupt instant k in 0..N (N = instructions of the uninterrupted run, up to 700), every INPUT wait, every after-reply instant and (15% of the programs carry a LIST statement) every instant between two listed lines is executed with interrupt()+CONT, STOP and END are inserted at every top-level statement boundary, and 7 quantum schedules are run; distinct = distinct fingerprint of all event logs of the case; non-trivial = the uninterrupted run executed more than 5 VM instructions"
     }
     fn assumptions(&self) -> Vec<&'static str> {
         vec![
